@@ -232,4 +232,212 @@ theorem rpU_mono {m1 B1 m2 B2 : Nat} (h : m1 * 2 ^ B1 ≤ m2 * 2 ^ B2) : rpU m1 
     rw [pow_split hB', ← Nat.mul_assoc, Nat.mul_right_comm] at h
     exact Nat.le_of_mul_le_mul_right h (two_pow_pos B2)
 
+/-! ### non-negative finite patterns: the value in units of 2^-149 -/
+
+theorem mantR_def (p : Nat) : mantR p = if p < 8388608 then p else p % 8388608 + 8388608 := by
+  unfold mantR; rw [cond_blt, nadd, nmod]
+
+theorem bexpR_def (p : Nat) : bexpR p = if p < 8388608 then 851 else p / 8388608 + 850 := by
+  unfold bexpR; rw [cond_blt, nadd, ndiv]
+
+/-- the value of a non-negative finite pattern, as a multiple of 2^-149 -/
+def pval (p : Nat) : Nat := mantR p * 2 ^ (bexpR p - 851)
+
+theorem pval_small (p : Nat) (h : p < 8388608) : pval p = p := by
+  unfold pval; rw [mantR_def, bexpR_def, if_pos h, if_pos h, Nat.sub_self, Nat.pow_zero, Nat.mul_one]
+
+theorem pval_big (p : Nat) (h : ¬ p < 8388608) :
+    pval p = (p % 8388608 + 8388608) * 2 ^ (p / 8388608 - 1) := by
+  unfold pval; rw [mantR_def, bexpR_def, if_neg h, if_neg h]
+  have : p / 8388608 + 850 - 851 = p / 8388608 - 1 := by omega
+  rw [this]
+
+/-- BIT PATTERNS OF NON-NEGATIVE FLOATS ARE ORDERED LIKE THEIR VALUES -/
+theorem pval_mono {a b : Nat} (h : a ≤ b) : pval a ≤ pval b := by
+  by_cases hb : b < 8388608
+  · rw [pval_small a (by omega), pval_small b hb]; exact h
+  · rw [pval_big b hb]
+    have hpos := two_pow_pos (b / 8388608 - 1)
+    by_cases ha : a < 8388608
+    · rw [pval_small a ha]
+      have : b % 8388608 + 8388608 ≤ (b % 8388608 + 8388608) * 2 ^ (b / 8388608 - 1) := Nat.le_mul_of_pos_right _ hpos
+      omega
+    · rw [pval_big a ha]
+      have hd : a / 8388608 ≤ b / 8388608 := Nat.div_le_div_right h
+      have e1 := Nat.div_add_mod a 8388608
+      have e2 := Nat.div_add_mod b 8388608
+      have r1 := Nat.mod_lt a (show 0 < 8388608 by decide)
+      by_cases he : a / 8388608 = b / 8388608
+      · rw [he]
+        apply Nat.mul_le_mul_right
+        rw [he] at e1
+        omega
+      · have hlt : a / 8388608 < b / 8388608 := by omega
+        have hge : 1 ≤ a / 8388608 := by omega
+        generalize a / 8388608 = ea at *
+        generalize b / 8388608 = eb at *
+        generalize a % 8388608 = fa at *
+        generalize b % 8388608 = fb at *
+        have hs : 2 ^ (eb - 1) = 2 ^ (ea - 1) * 2 ^ (eb - ea) := by
+          rw [← Nat.pow_add]; congr 1; omega
+        have hq : 2 ^ 1 ≤ 2 ^ (eb - ea) := pow_mono (by omega)
+        rw [hs]
+        generalize 2 ^ (ea - 1) = P at *
+        generalize 2 ^ (eb - ea) = Q at *
+        calc (fa + 8388608) * P ≤ (8388608 * 2) * P := Nat.mul_le_mul_right _ (by omega)
+          _ = 8388608 * (P * 2) := by rw [Nat.mul_assoc, Nat.mul_comm 2 P]
+          _ ≤ 8388608 * (P * Q) := Nat.mul_le_mul_left _ (Nat.mul_le_mul_left _ hq)
+          _ ≤ (fb + 8388608) * (P * Q) := Nat.mul_le_mul_right _ (by omega)
+
+/-! ### the operators on non-negative finite operands: exact integer result, one rounding -/
+
+theorem fmul_pval (a c : Nat) (ha : a < 0x7F800000) (hc : c < 0x7F800000) :
+    fmul a c = rpU (pval a * pval c) 702 := by
+  have h2 : posfin2 a c = true := (posfin2_iff a c).mpr ⟨ha, hc⟩
+  rw [← mulR_eq]
+  unfold mulR
+  rw [h2, cond_true, lz_eq, rpH_eq_rpU, nmul, nadd, nsub]
+  have ea := bexpR_ge a
+  have ec := bexpR_ge c
+  unfold pval
+  have : mantR a * 2 ^ (bexpR a - 851) * (mantR c * 2 ^ (bexpR c - 851)) =
+      mantR a * mantR c * 2 ^ ((bexpR a - 851) + (bexpR c - 851)) := by
+    rw [Nat.pow_add, Nat.mul_mul_mul_comm]
+  have e : 702 + (bexpR a - 851 + (bexpR c - 851)) = bexpR a + bexpR c - 1000 := by omega
+  rw [this, rpU_scale, e]
+
+theorem fadd_pval (a c : Nat) (ha : a < 0x7F800000) (hc : c < 0x7F800000) :
+    fadd a c = rpU (pval a + pval c) 851 := by
+  have h2 : posfin2 a c = true := (posfin2_iff a c).mpr ⟨ha, hc⟩
+  rw [← addR_eq]
+  unfold addR
+  rw [h2, cond_true, lz_eq, lz_eq, cond_ble]
+  have ea := bexpR_ge a
+  have ec := bexpR_ge c
+  unfold pval
+  generalize bexpR a = A at *
+  generalize bexpR c = C at *
+  by_cases hle : C ≤ A
+  · rw [if_pos hle, lz_eq, rpH_eq_rpU, nadd, nsub, nshl, Nat.shiftLeft_eq]
+    have : mantR a * 2 ^ (A - 851) + mantR c * 2 ^ (C - 851) = (mantR a * 2 ^ (A - C) + mantR c) * 2 ^ (C - 851) := by
+      have e : A - C + (C - 851) = A - 851 := by omega
+      rw [Nat.add_mul, Nat.mul_assoc, ← Nat.pow_add, e]
+    have e' : 851 + (C - 851) = C := by omega
+    rw [this, rpU_scale, e']
+  · rw [if_neg hle, lz_eq, rpH_eq_rpU, nadd, nsub, nshl, Nat.shiftLeft_eq]
+    have : mantR a * 2 ^ (A - 851) + mantR c * 2 ^ (C - 851) = (mantR a + mantR c * 2 ^ (C - A)) * 2 ^ (A - 851) := by
+      have e : C - A + (A - 851) = C - 851 := by omega
+      rw [Nat.add_mul, Nat.mul_assoc (mantR c), ← Nat.pow_add, e]
+    have e' : 851 + (A - 851) = A := by omega
+    rw [this, rpU_scale, e']
+
+theorem toNatSat_pval (x mx : Nat) (hx : x < 0x7F800000) : toNatSat x mx = min mx (pval x / 2 ^ 149) := by
+  rw [← toNatSatR_eq]
+  unfold toNatSatR
+  rw [cond_blt, if_pos hx, lz_eq, lz_eq, cond_ble, cond_blt, nsub, nsub, nshl, nshr, Nat.shiftLeft_eq,
+    Nat.shiftRight_eq_div_pow]
+  have e := bexpR_ge x
+  unfold pval
+  generalize bexpR x = E at *
+  generalize mantR x = m
+  have hv : (if 1000 ≤ E then m * 2 ^ (E - 1000) else m / 2 ^ (1000 - E)) = m * 2 ^ (E - 851) / 2 ^ 149 := by
+    by_cases h : 1000 ≤ E
+    · rw [if_pos h]
+      have : 2 ^ (E - 851) = 2 ^ (E - 1000) * 2 ^ 149 := by
+        have e : E - 851 = E - 1000 + 149 := by omega
+        rw [e, Nat.pow_add]
+      rw [this, ← Nat.mul_assoc, Nat.mul_div_cancel _ (two_pow_pos 149)]
+    · rw [if_neg h]
+      have : 2 ^ 149 = 2 ^ (1000 - E) * 2 ^ (E - 851) := by
+        have e : 149 = 1000 - E + (E - 851) := by omega
+        rw [← Nat.pow_add, ← e]
+      rw [this, Nat.mul_div_mul_right _ _ (two_pow_pos _)]
+  rw [hv]
+  generalize m * 2 ^ (E - 851) / 2 ^ 149 = v
+  split <;> omega
+
+/-! ### monotonicity on the non-negative half line `0 … +∞` (patterns `0 … 0x7F800000`) -/
+
+theorem posInf_flags : isNaN 0x7F800000 = false ∧ isInf 0x7F800000 = true ∧ isNeg 0x7F800000 = false ∧
+    isZero 0x7F800000 = false := by decide
+
+theorem fmul_posInf (c : Nat) (hc : c < 0x7F800000) (hc0 : 0 < c) : fmul 0x7F800000 c = 0x7F800000 := by
+  obtain ⟨c1, c2, c3, _, _⟩ := posfin c hc
+  obtain ⟨i1, i2, i3, i4⟩ := posInf_flags
+  have cz : isZero c = false := by
+    unfold isZero signBit
+    have : c % 0x80000000 = c := Nat.mod_eq_of_lt (by omega)
+    rw [this]
+    simp only [beq_eq_false_iff_ne, ne_eq]; omega
+  unfold fmul
+  simp only [force_eq, c1, c2, c3, i1, i2, i3, i4, cz]
+  rfl
+
+theorem fadd_posInf (c : Nat) (hc : c < 0x7F800000) : fadd 0x7F800000 c = 0x7F800000 := by
+  obtain ⟨c1, c2, c3, _, _⟩ := posfin c hc
+  obtain ⟨i1, i2, i3, i4⟩ := posInf_flags
+  unfold fadd
+  simp only [force_eq, c1, c2, c3, i1, i2, i3]
+  rfl
+
+theorem toNatSat_posInf (mx : Nat) : toNatSat 0x7F800000 mx = mx := by
+  obtain ⟨i1, i2, i3, i4⟩ := posInf_flags
+  unfold toNatSat
+  simp only [force_eq, i1, i2, i3]
+  rfl
+
+/-- `x ↦ x * c` for a positive finite constant `c`, on `0 ≤ a ≤ b ≤ +∞` -/
+theorem fmul_mono_nonneg {a b c : Nat} (hab : a ≤ b) (hb : b ≤ 0x7F800000) (hc : c < 0x7F800000) (hc0 : 0 < c) :
+    fmul a c ≤ fmul b c ∧ fmul b c ≤ 0x7F800000 := by
+  by_cases hbi : b = 0x7F800000
+  · rw [hbi, fmul_posInf c hc hc0]
+    refine ⟨?_, Nat.le_refl _⟩
+    by_cases hai : a = 0x7F800000
+    · rw [hai, fmul_posInf c hc hc0]; exact Nat.le_refl _
+    · rw [fmul_pval a c (by omega) hc]; exact rpU_le _ _
+  · rw [fmul_pval a c (by omega) hc, fmul_pval b c (by omega) hc]
+    exact ⟨rpU_mono_m _ (Nat.mul_le_mul_right _ (pval_mono hab)), rpU_le _ _⟩
+
+/-- `x ↦ x + c` for a non-negative finite constant `c`, on `0 ≤ a ≤ b ≤ +∞` -/
+theorem fadd_mono_nonneg {a b c : Nat} (hab : a ≤ b) (hb : b ≤ 0x7F800000) (hc : c < 0x7F800000) :
+    fadd a c ≤ fadd b c ∧ fadd b c ≤ 0x7F800000 := by
+  by_cases hbi : b = 0x7F800000
+  · rw [hbi, fadd_posInf c hc]
+    refine ⟨?_, Nat.le_refl _⟩
+    by_cases hai : a = 0x7F800000
+    · rw [hai, fadd_posInf c hc]; exact Nat.le_refl _
+    · rw [fadd_pval a c (by omega) hc]; exact rpU_le _ _
+  · rw [fadd_pval a c (by omega) hc, fadd_pval b c (by omega) hc]
+    exact ⟨rpU_mono_m _ (Nat.add_le_add_right (pval_mono hab) _), rpU_le _ _⟩
+
+/-- `x as uN` on `0 ≤ a ≤ b ≤ +∞` -/
+theorem toNatSat_mono_nonneg {a b : Nat} (mx : Nat) (hab : a ≤ b) (hb : b ≤ 0x7F800000) :
+    toNatSat a mx ≤ toNatSat b mx := by
+  by_cases hbi : b = 0x7F800000
+  · rw [hbi, toNatSat_posInf]
+    by_cases hai : a = 0x7F800000
+    · rw [hai, toNatSat_posInf]; exact Nat.le_refl _
+    · rw [toNatSat_pval a mx (by omega)]; omega
+  · rw [toNatSat_pval a mx (by omega), toNatSat_pval b mx (by omega)]
+    have : pval a / 2 ^ 149 ≤ pval b / 2 ^ 149 := Nat.div_le_div_right (pval_mono hab)
+    omega
+
+/-- the pipeline `(x * K + h) as uN` of the float → UNORM conversions -/
+def pipe (K h mx x : Nat) : Nat := toNatSat (fadd (fmul x K) h) mx
+
+/-- THE PIPELINE IS MONOTONE on `0 ≤ a ≤ b ≤ +∞` -/
+theorem pipe_mono {K h mx a b : Nat} (hK : K < 0x7F800000) (hK0 : 0 < K) (hh : h < 0x7F800000)
+    (hab : a ≤ b) (hb : b ≤ 0x7F800000) : pipe K h mx a ≤ pipe K h mx b := by
+  unfold pipe
+  obtain ⟨m1, m2⟩ := fmul_mono_nonneg hab hb hK hK0
+  obtain ⟨s1, s2⟩ := fadd_mono_nonneg (c := h) m1 m2 hh
+  exact toNatSat_mono_nonneg mx s1 s2
+
+theorem pipe_le (K h mx x : Nat) (hx : x ≤ 0x7F800000) (hK : K < 0x7F800000) (hK0 : 0 < K) (hh : h < 0x7F800000) :
+    pipe K h mx x ≤ mx := by
+  have := pipe_mono (mx := mx) hK hK0 hh hx (Nat.le_refl _)
+  unfold pipe at this ⊢
+  rw [fmul_posInf K hK hK0, fadd_posInf h hh, toNatSat_posInf] at this
+  exact this
+
 end Dds.F32Mono
